@@ -118,6 +118,18 @@ class TasksRun:
             run.log("taskEnded", tid, None)
 
         if spec.get("pre_reg") is None:
+            if tid % 2 == 0 and not spec.get("from_nested"):
+                def call_then_await() -> Any:
+                    # the documented way to pass arguments - `lambda: fn(arg)` -, a partial, a callable object: a plain
+                    # callable whose synchronous part, too, runs in the task's own context
+                    cc = current_context()
+                    if cc is run.owner_ctx or cc.parent is not run.owner_ctx:
+                        run.log("probeFailed", tid, f"the task function of service task {tid} (a plain callable returning an "
+                                                    f"awaitable) was called outside the task's own context", "C12,C08")
+                    return body()
+
+                return call_then_await
+
             async def plain_body() -> None:
                 await body()
 
@@ -144,6 +156,10 @@ class TasksRun:
         def act() -> None:
             self.log("actionCalled", spec["tid"])
             if a["raises"]:
+                if spec["tid"] % 2 == 0 and self.case.get("backend", "asyncio") == "asyncio":
+                    # what `helper.cancel(); await helper` inside the stop callable ends with: the back-end's cancellation
+                    # exception, without anybody having cancelled the teardown
+                    raise anyio.get_cancelled_exc_class()()
                 raise EXN[3]()
             stop.set()
 
